@@ -35,6 +35,11 @@ COMPONENTS = {
     ],
     "stub": ["pyserial Serial (SimSerial)", "libusbsio HID device (SimHid)", "time module (simulated clock)", "device / ROM (reference model in /verif/c10)"],
 }
+MEASURES = {
+    "distinct_schedules": "distinct (transport, packet size, timing knobs) configurations; the host is synchronous, so the interleaving of host and device is fixed by the link timing",
+    "distinct_states": "not measured (0)",
+    "sim_time_s": "simulated link time: byte / report times, device latency, host time-outs and sleeps",
+}
 ASSUMPTIONS = [
     "the device model is a protocol-complete peer written from the bootloader protocol definition; it waits for the host's ACK before sending the next frame",
     "CRC-consistent payload corruption is not injected (no framing protocol can detect it, the property does not ask for it)",
